@@ -116,6 +116,9 @@ func (e *Engine) load(p Ptr) Val {
 	if p.O == nil {
 		e.rtPanic("invalid memory address or nil pointer dereference")
 	}
+	if e.threads != nil {
+		e.raceObj(p.O, p.P, false)
+	}
 	v := p.O.V
 	for _, i := range p.P {
 		if pz, ok := v.(Poison); ok {
@@ -132,6 +135,9 @@ func (e *Engine) load(p Ptr) Val {
 func (e *Engine) store(p Ptr, x Val) {
 	if p.O == nil {
 		e.rtPanic("invalid memory address or nil pointer dereference")
+	}
+	if e.threads != nil {
+		e.raceObj(p.O, p.P, true)
 	}
 	x = copyVal(x)
 	if len(p.P) == 0 {
@@ -705,7 +711,18 @@ func (e *Engine) step(fr *frame, in ssa.Instruction) {
 	case *ssa.Select:
 		e.selectOp(fr, in)
 	case *ssa.Go:
-		unsup("go statement (concurrency is outside the technique): %s", in)
+		args := make([]Val, len(in.Call.Args))
+		for i, a := range in.Call.Args {
+			args[i] = e.get(fr, a)
+		}
+		if in.Call.IsInvoke() {
+			recv := e.get(fr, in.Call.Value).(Iface)
+			call := in.Call
+			e.spawnThread(func() { e.invoke(recv, call.Method, args) }, "start")
+		} else {
+			f := e.get(fr, in.Call.Value)
+			e.spawnThread(func() { e.callVal(f, args) }, "start")
+		}
 	default:
 		unsup("instr %T: %s", in, in)
 	}
@@ -914,11 +931,17 @@ func (e *Engine) canonKey(v Val) string {
 }
 
 func (e *Engine) mapFind(m *MapObj, k Val) (int, bool) {
+	if e.threads != nil {
+		e.raceMap(m, false)
+	}
 	i, ok := m.idx[e.canonKey(k)]
 	return i, ok
 }
 
 func (e *Engine) mapSet(m *MapObj, k, v Val) {
+	if e.threads != nil {
+		e.raceMap(m, true)
+	}
 	ck := e.canonKey(k)
 	if i, ok := m.idx[ck]; ok {
 		m.vals[i] = copyVal(v)
@@ -939,6 +962,9 @@ func (e *Engine) mapSet(m *MapObj, k, v Val) {
 }
 
 func (e *Engine) mapDelete(m *MapObj, k Val) {
+	if e.threads != nil {
+		e.raceMap(m, true)
+	}
 	ck := e.canonKey(k)
 	if i, ok := m.idx[ck]; ok {
 		m.dead[i] = true
@@ -946,38 +972,88 @@ func (e *Engine) mapDelete(m *MapObj, k Val) {
 	}
 }
 
-// ---- channels (bounded FIFOs, single-threaded) ----
+// ---- channels (bounded FIFOs; with threads: blocking operations wait, unbuffered channels rendezvous) ----
+
+func chanKey(ch *ChanObj) string { return fmt.Sprintf("ch%d", ch.id) }
 
 func (e *Engine) send(ch Chan, v Val) {
 	if ch.C == nil {
-		panic(blockedPath{"send on nil channel"})
+		e.waitFor(func() bool { return false }, "send on nil channel")
 	}
-	if ch.C.closed {
+	e.schedPoint("chan send")
+	c := ch.C
+	if c.closed {
 		e.rtPanic("send on closed channel")
 	}
-	if len(ch.C.buf) >= ch.C.cap {
-		panic(blockedPath{"send on full channel (no other goroutine exists)"})
+	if c.cap > 0 {
+		e.waitFor(func() bool { return c.closed || len(c.buf) < c.cap }, "send on full channel")
+		if c.closed {
+			e.rtPanic("send on closed channel")
+		}
+		e.chanPut(c, v)
+		return
 	}
-	ch.C.buf = append(ch.C.buf, copyVal(v))
+	// unbuffered: hand the value over and wait until a receiver has taken it
+	if !e.mt() {
+		panic(blockedPath{"send on unbuffered channel (no other goroutine exists)"})
+	}
+	my := c.sent
+	e.chanPut(c, v)
+	e.waitFor(func() bool { return c.rcvd > my }, "send on unbuffered channel")
+	e.acquire(chanKey(c) + ":ack")
+}
+
+func (e *Engine) chanPut(c *ChanObj, v Val) {
+	c.buf = append(c.buf, copyVal(v))
+	var vc vclock
+	if e.mt() {
+		vc = e.cur.vc.copy()
+		e.cur.vc[e.cur.id]++
+	}
+	c.vcs = append(c.vcs, vc)
+	c.sent++
+}
+
+func (e *Engine) closeChan(c *ChanObj) {
+	if c.closed {
+		e.rtPanic("close of closed channel")
+	}
+	e.release(chanKey(c) + ":close")
+	c.closed = true
 }
 
 func (e *Engine) recv(ch Chan, commaOk bool, t types.Type) Val {
 	if ch.C == nil {
-		panic(blockedPath{"receive from nil channel"})
+		e.waitFor(func() bool { return false }, "receive from nil channel")
 	}
-	if len(ch.C.buf) == 0 {
-		if ch.C.closed {
-			var z Val
-			if commaOk {
-				z = zero(t.(*types.Tuple).At(0).Type())
-				return Tuple{z, Bool{}}
-			}
-			return zero(t)
+	e.schedPoint("chan receive")
+	c := ch.C
+	c.recvWaiting++
+	e.waitFor(func() bool { return len(c.buf) > 0 || c.closed }, "receive from empty channel")
+	c.recvWaiting--
+	if len(c.buf) == 0 {
+		e.acquire(chanKey(c) + ":close")
+		var z Val
+		if commaOk {
+			z = zero(t.(*types.Tuple).At(0).Type())
+			return Tuple{z, Bool{}}
 		}
-		panic(blockedPath{"receive from empty channel (no other goroutine exists)"})
+		return zero(t)
 	}
-	v := ch.C.buf[0]
-	ch.C.buf = ch.C.buf[1:]
+	v := c.buf[0]
+	c.buf = c.buf[1:]
+	if e.mt() && len(c.vcs) > 0 {
+		if c.vcs[0] != nil {
+			e.cur.vc.join(c.vcs[0])
+		}
+		if c.cap == 0 {
+			e.release(chanKey(c) + ":ack")
+		}
+	}
+	if len(c.vcs) > 0 {
+		c.vcs = c.vcs[1:]
+	}
+	c.rcvd++
 	if commaOk {
 		return Tuple{v, Bool{C: true}}
 	}
@@ -986,19 +1062,41 @@ func (e *Engine) recv(ch Chan, commaOk bool, t types.Type) Val {
 
 func (e *Engine) selectOp(fr *frame, in *ssa.Select) {
 	// choose the first ready case in source order among ready ones — with a fork over all ready cases
+	e.schedPoint("select")
 	var ready []int
-	for i, st := range in.States {
-		ch := e.get(fr, st.Chan).(Chan)
-		if ch.C == nil {
-			continue
-		}
-		if st.Dir == types.SendOnly {
-			if ch.C.closed || len(ch.C.buf) < ch.C.cap {
+	compute := func() bool {
+		ready = ready[:0]
+		for i, st := range in.States {
+			ch := e.get(fr, st.Chan).(Chan)
+			if ch.C == nil {
+				continue
+			}
+			if st.Dir == types.SendOnly {
+				if ch.C.closed || len(ch.C.buf) < ch.C.cap || (ch.C.cap == 0 && ch.C.recvWaiting > 0 && len(ch.C.buf) == 0) {
+					ready = append(ready, i)
+				}
+			} else if len(ch.C.buf) > 0 || ch.C.closed {
 				ready = append(ready, i)
 			}
-		} else if len(ch.C.buf) > 0 || ch.C.closed {
-			ready = append(ready, i)
 		}
+		return len(ready) > 0
+	}
+	compute()
+	if len(ready) == 0 && in.Blocking && e.mt() {
+		var waits []*ChanObj
+		for _, st := range in.States {
+			if ch := e.get(fr, st.Chan).(Chan); ch.C != nil && st.Dir == types.RecvOnly {
+				waits = append(waits, ch.C)
+			}
+		}
+		for _, c := range waits {
+			c.recvWaiting++
+		}
+		e.waitFor(compute, "select with no ready case")
+		for _, c := range waits {
+			c.recvWaiting--
+		}
+		compute()
 	}
 	res := Tuple{Int{W: 64, S: true}, Bool{}}
 	for _, st := range in.States {
@@ -1024,6 +1122,8 @@ func (e *Engine) selectOp(fr *frame, in *ssa.Select) {
 		if st.Dir == types.RecvOnly {
 			if i == pick {
 				ch := e.get(fr, st.Chan).(Chan)
+				e.noSched++
+				defer func() { e.noSched-- }()
 				r := e.recv(ch, true, types.NewTuple(types.NewVar(0, nil, "", st.Chan.Type().Underlying().(*types.Chan).Elem()), types.NewVar(0, nil, "", types.Typ[types.Bool]))).(Tuple)
 				res[ri] = r[0]
 				res[1] = r[1]
